@@ -16,9 +16,10 @@ ASSUMPTIONS = ["the pairing used inside the invariant is the library's (decided 
                "value 0 (mod r) in a key slot is identified with 'hidden' (h^0 contributes nothing and no b element is kept)"]
 
 
-def universe(ctx):
+def universe(ctx, quick_l=2, quick_names=("v1", "v2")):
+    """quick_l / quick_names: the checks that ride on this state graph and are cheap per state (C13) use a larger quick universe"""
     if ctx.tier == "quick":
-        return dict(l=2, names=["v1", "v2"], witnesses=1, adjust="subset")
+        return dict(l=quick_l, names=list(quick_names), witnesses=1, adjust="subset")
     return dict(l=3, names=["v1", "v2"], witnesses=2, adjust="subset")
 
 
